@@ -74,7 +74,9 @@ def parse (ws : List String) : Option (String × Option (B Nat)) :=
         if wt.isEmpty || at_.isEmpty then none else
         let wd : Option (Option (List Nat)) :=
           if wt == ["-"] then some none
-          else if wt == ["e"] then some (some [])
+          -- `e`: `add_withdrawals_from_pdu` of a PDU without NLRI of this family. Since the C07
+          -- repair of K7 it leaves the builder as it was (no empty MP_UNREACH builder behind).
+          else if wt == ["e"] then some none
           else (toks f wt).map some
         let ann : Option (List Nat) := if at_ == ["-"] then some [] else toks f at_
         match wd, ann, nhOf f k, num len with
